@@ -380,12 +380,20 @@ impl<'a> Interp<'a> {
                 let x = self.expr(fr, a)?;
                 Val::Opt(convert(from, to, int(&x)).map(|v| Box::new(Val::Int(v))))
             }
-            Expr::Tuple(es) | Expr::StructLit(_, es) => {
+            Expr::Tuple(es) => {
                 let mut vs = vec![];
                 for x in es {
                     vs.push(self.expr(fr, x)?);
                 }
                 Val::Tup(vs)
+            }
+            Expr::StructLit(s, es) => {
+                // Evaluated in the written order, stored in declaration order.
+                let mut vs: Vec<Option<Val>> = es.iter().map(|_| None).collect();
+                for i in crate::gens::prog::struct_lit_order(*s, es.len()) {
+                    vs[i] = Some(self.expr(fr, &es[i])?);
+                }
+                Val::Tup(vs.into_iter().map(|v| v.unwrap()).collect())
             }
             Expr::Permute(a, _, picks) => match self.expr(fr, a)? {
                 Val::Tup(vs) => Val::Tup(picks.iter().map(|k| vs[*k].clone()).collect()),
